@@ -23,6 +23,15 @@ import (
 //	creates      every `M[k] = v` into module.Apps / app.Types / app.Endpoints in the functions the model follows,
 //	             with its guard: IfAbsent (`_, has := M[k]; !has` or `x := M[k]` ... `x == nil`) or Always
 //
+//	appends      every self-append `X = append(X, ...)` in the functions whose lists grow in declaration order when a
+//	             declaration is met again (ExitParams, ExitMixin, EnterSubscribe, ExitMethod_def, addToCurrentScope,
+//	             ExitUnion, EnterTypes): (function, printed target)
+//	anno_rule    the shape of addAttrWithPrecedence: FirstNonEmptyWins = "patterns" arrays appended, an existing
+//	             non-empty string / non-empty array kept (return before the assignment), otherwise attrs[key] = attr
+//	field_redecl EnterField looks the field up in s.typemap and only builds a new type when it is absent, and
+//	             EnterField_type merges the attributes with mergeAttrsWithPrecendence and sets Opt only under
+//	             `ctx.QN() != nil`: FieldMerged; anything else FieldUnknown
+//
 // Everything is found by role, never by line number.
 func init() { register("MergeRules", mergeRules) }
 
@@ -235,7 +244,8 @@ func mergeRules(repo string) (string, error) {
 	// ---- creates
 	type create struct{ fn, m, guard string }
 	var creates []create
-	follow := []string{"EnterName_with_attribs", "EnterTable", "EnterEnum", "EnterSimple_endpoint", "EnterMethod_def", "EnterEvent"}
+	follow := []string{"EnterName_with_attribs", "EnterTable", "EnterEnum", "EnterSimple_endpoint", "EnterMethod_def", "EnterEvent",
+		"EnterAlias", "ExitAlias", "EnterUnion", "EnterSubscribe"}
 	for _, name := range follow {
 		fd := funcs[name]
 		if fd == nil {
@@ -267,6 +277,8 @@ func mergeRules(repo string) (string, error) {
 					which = "Types"
 				case strings.HasSuffix(r, "currentApp().Endpoints"):
 					which = "Endpoints"
+				case r == "srcApp.Endpoints":
+					which = "PublisherEndpoints"
 				}
 			}
 			if which == "" {
@@ -290,6 +302,10 @@ func mergeRules(repo string) (string, error) {
 							if v == mexpr+"["+key+"]" {
 								guard = "IfAbsent"
 							}
+							// srcApp := syslutil.GetApp(app_src, s.module) ... if srcApp == nil { s.module.Apps[..] = }
+							if which == "Apps" && strings.HasPrefix(v, "syslutil.GetApp(") && strings.HasSuffix(v, "s.module)") {
+								guard = "IfAbsent"
+							}
 						}
 					}
 				}
@@ -308,10 +324,96 @@ func mergeRules(repo string) (string, error) {
 		return creates[i].guard < creates[j].guard
 	})
 
+	// ---- appends
+	type app2 struct{ fn, target string }
+	var appends []app2
+	for _, name := range []string{"ExitParams", "ExitMixin", "EnterSubscribe", "ExitMethod_def", "addToCurrentScope", "ExitUnion", "EnterTypes"} {
+		fd := funcs[name]
+		if fd == nil {
+			appends = append(appends, app2{name, "Missing"})
+			continue
+		}
+		ast.Inspect(fd.Body, func(n ast.Node) bool {
+			as, ok := n.(*ast.AssignStmt)
+			if !ok || len(as.Lhs) != 1 || len(as.Rhs) != 1 {
+				return true
+			}
+			call, ok := as.Rhs[0].(*ast.CallExpr)
+			if !ok || !isIdent(call.Fun, "append") || len(call.Args) < 2 {
+				return true
+			}
+			lhs := mrPrint(fset, as.Lhs[0])
+			if mrPrint(fset, call.Args[0]) == lhs {
+				appends = append(appends, app2{name, lhs})
+			}
+			return true
+		})
+	}
+	sort.SliceStable(appends, func(i, j int) bool {
+		if appends[i].fn != appends[j].fn {
+			return appends[i].fn < appends[j].fn
+		}
+		return appends[i].target < appends[j].target
+	})
+
+	// ---- anno_rule
+	annoRule := "AnnoUnknown"
+	if fd := funcs["addAttrWithPrecedence"]; fd != nil {
+		body := strings.Join(strings.Fields(mrPrint(fset, fd.Body)), "")
+		frags := []string{
+			"ifpatterns,hasPatterns:=attrs[patternsKey];hasPatterns&&key==patternsKey{",
+			"currPatterns.A.Elt=append(currPatterns.A.GetElt(),newPatterns.A.GetElt()...)returnattrs}",
+			"ifv,exists:=attrs[key];exists&&v.Attribute!=nil{switchx:=v.Attribute.(type){",
+			"case*sysl.Attribute_S:ifx.S!=\"\"{",
+			"returnattrs}",
+			"case*sysl.Attribute_A:iflen(x.A.GetElt())>0{",
+			"returnattrs}",
+			"attrs[key]=attrreturnattrs}",
+		}
+		pos, ok := 0, true
+		for _, f := range frags {
+			i := strings.Index(body[pos:], f)
+			if i < 0 {
+				ok = false
+				break
+			}
+			pos += i + len(f)
+		}
+		if ok && pos == len(body) && strings.Count(body, "returnattrs") == 4 && strings.Count(body, "attrs[key]=") == 1 {
+			annoRule = "FirstNonEmptyWins"
+		}
+	}
+
+	// ---- field_redecl
+	fieldRedecl := "FieldUnknown"
+	if f1, f2 := funcs["EnterField"], funcs["EnterField_type"]; f1 != nil && f2 != nil {
+		b1 := strings.Join(strings.Fields(mrPrint(fset, f1.Body)), "")
+		b2 := strings.Join(strings.Fields(mrPrint(fset, f2.Body)), "")
+		lookup := strings.Contains(b1, "type1,has:=s.typemap[fieldName]ifhas{") && strings.Contains(b1, "}else{type1=&sysl.Type{}") &&
+			strings.Count(b1, "type1=&sysl.Type{}") == 1 && strings.Contains(b1, "s.typemap[fieldName]=type1")
+		merge := strings.Contains(b2, "type1.Attrs=mergeAttrsWithPrecendence(type1.Attrs,s.makeAttributeArray(attribs))") &&
+			strings.Count(b2, "type1.Attrs=")-strings.Count(b2, "type1.Attrs==") == 2 && strings.Contains(b2, "iftype1.Attrs==nil{type1.Attrs=map[string]*sysl.Attribute{}}")
+		opt := strings.Contains(b2, "ifctx.QN()!=nil{type1.Opt=true}") && strings.Count(b2, "type1.Opt=") == 1
+		if lookup && merge && opt {
+			fieldRedecl = "FieldMerged"
+		}
+	}
+
 	var sb strings.Builder
 	sb.WriteString("(* GENERATED by vt MergeRules from pkg/parse/listener_impl.go -- do not edit *)\n")
 	sb.WriteString("From Coq Require Import String List Bool.\nImport ListNotations.\nRequire Import Verif.Merge.Model.\nLocal Open Scope string_scope.\n")
 	sb.WriteString("Inductive guard := IfAbsent | Always | GUnknown.\n")
+	sb.WriteString("Inductive annorule := FirstNonEmptyWins | AnnoUnknown.\nInductive fieldrule := FieldMerged | FieldUnknown.\n")
+	fmt.Fprintf(&sb, "Definition anno_rule : annorule := %s.\nDefinition field_redecl : fieldrule := %s.\n", annoRule, fieldRedecl)
+	sb.WriteString("Definition appends : list (string * string) := [\n")
+	for i, a := range appends {
+		sep := ";"
+		if i == len(appends)-1 {
+			sep = ""
+		}
+		fmt.Fprintf(&sb, "  (\"%s\", \"%s\")%s\n", a.fn, a.target, sep)
+	}
+	sb.WriteString("].\n")
 	fmt.Fprintf(&sb, "Definition pk_mode : pkmode := %s.\n", pkMode)
 	fmt.Fprintf(&sb, "Definition pk_only_nonempty : bool := %v.\n", pkNonEmpty)
 	sb.WriteString("Definition lazy_maps : list (string * string * bool) := [\n")
